@@ -37,6 +37,11 @@ def deep_slice_calls(lib, body, operands, depth=2):
             out += deep_slice_calls(lib, cb, [0], depth - 1)
             for cp in lib.closures_of(cb.path):
                 out += deep_slice_calls(lib, lib.body(cp), [0], depth - 1)
+    # closures handed to adaptors (map, and_then, ...) inside the slice contribute their results
+    for l in sl.locals:
+        cp = lib.closure_of_type(body.local_ty(l)) if '{closure@' in body.local_ty(l) else None
+        if cp and lib.body(cp) is not None and depth >= 0:
+            out += deep_slice_calls(lib, lib.body(cp), [0], depth - 1) if depth > 0 else [(lib.body(cp), c) for c in backslice(lib.body(cp), [0]).calls]
     return out
 
 
@@ -174,6 +179,31 @@ def r1(ctx, lib, wt, rh, rp):
         ctx.missing(rule, 'to_escaped_string / from_escaped_string / to_stfu8 / from_stfu8')
 
 
+ALLOWED_TERMINATOR = {"'\\n'", "'\\r'", '"\\n"', '"\\r\\n"', '"\\r"'}
+
+
+def broad_strippers(lib, calls):
+    """pattern-based trims whose pattern is wider than the line terminator: returns [(body, call, why)]"""
+    out = []
+    for b, c in calls:
+        if not c.matches(r'str::<impl str>::(trim_end_matches|trim_start_matches|trim_matches|strip_suffix|strip_prefix|trim_right_matches|trim_left_matches)$'):
+            continue
+        last = c.path.rsplit('::', 1)[-1]
+        if last in ('strip_prefix', 'trim_start_matches', 'trim_left_matches'):
+            continue          # the indentation / the fixed "# Base dir: " prefix: checked by the regex / starts_with
+        sl = backslice(b, [c.args[1]])
+        fns = [k.get('fn') for k in sl.consts if 'fn' in k]
+        clos = [l for l in sl.locals if '{closure@' in b.local_ty(l)]
+        from ..analysis import slice_const_values
+        vals = [(v or '').replace('const ', '', 1) for v in slice_const_values(lib, sl)]
+        chars = [v for v in vals if v.startswith(("'", '"'))]
+        if fns or clos:
+            out.append((b, c, 'pattern is the predicate %s' % (fns or 'closure')))
+        elif not chars or any(v not in ALLOWED_TERMINATOR for v in chars):
+            out.append((b, c, 'pattern %s is wider than the line terminator' % chars))
+    return out
+
+
 def r2(ctx, lib, rh, rp):
     rule = 'C10.R2'
     if rp is not None:
@@ -182,6 +212,8 @@ def r2(ctx, lib, rh, rp):
         if ctx.floor(rule, 'from_escaped_string in read_paths', len(dec), 1, rp.where()):
             calls = deep_slice_calls(lib, rp, [dec[0].args[0]], 1)
             trims = [(b, c) for b, c in calls if c.matches(TRIM)]
+            for b_, c_, why in broad_strippers(lib, calls):
+                ctx.violation(rule, rp.path + '|path-payload-strip', c_.where(), 'the path payload passes %s, but %s: characters the encoder leaves unescaped (e.g. the C1 controls U+0080..U+009F, NBSP) are cut off the end of file names' % (c_.path.rsplit('::', 1)[-1], why))
             ctx.check(not trims, rule, rp.path + '|path-payload', dec[0].where(), 'the path payload is cut out of the line without a white-space trim (%s)' % ','.join(sorted({c.path.rsplit('::', 1)[-1] for _, c in calls if re.search(r'strip_|trim_end_matches|trim_start_matches|index', c.path)})),
                       'the path payload passes str::%s: file names with leading/trailing white space (e.g. "b ") are read back as a different name, and the dedupe command then acts on the wrong file' % (trims[0][1].path.rsplit('::', 1)[-1] if trims else ''))
     if rh is not None:
@@ -190,6 +222,8 @@ def r2(ctx, lib, rh, rp):
             hs = hdr[0][1]
             calls = deep_slice_calls(lib, rh, [agg_field(hs, 'base_dir')], 1)
             trims = [(b, c) for b, c in calls if c.matches(TRIM)]
+            for b_, c_, why in broad_strippers(lib, calls):
+                ctx.violation(rule, RH + '|base-dir-payload-strip', c_.where(), 'the base dir payload passes %s, but %s' % (c_.path.rsplit('::', 1)[-1], why))
             ctx.check(not trims, rule, RH + '|base-dir-payload', rh.where(hs['line']), 'the base dir payload is not white-space trimmed',
                       'the base dir payload passes str::%s (in %s): a working directory ending in white space is read back without it' % (trims[0][1].path.rsplit('::', 1)[-1] if trims else '', trims[0][0].path if trims else ''))
 
